@@ -188,14 +188,61 @@ def delta_method():
 
 
 def statistics():
-    bad = bootstrap() + cdd() + shrinkage() + delta_method()
+    bad = bootstrap() + cdd() + shrinkage() + delta_method() + summaries()
     if bad:
         raise AssertionError('; '.join(bad[:5]))
     return True
 
 
+def summaries():
+    """summarize_modelfit_results_from_entries / summarize_errors_from_entries report, per model entry, the numbers of
+    THAT entry's results: estimates, standard errors, relative standard errors, error / warning counts and the log
+    messages in order."""
+    import dataclasses
+    import pharmpy.modeling as pm
+    from pharmpy.tools import load_example_modelfit_results
+    from pharmpy.tools.run import summarize_errors_from_entries, summarize_modelfit_results_from_entries
+    from pharmpy.workflows import ModelEntry
+    from pharmpy.workflows.log import Log
+    bad = []
+    m = pm.load_example_model('pheno')
+    r = load_example_modelfit_results('pheno')
+    log = Log().log_error('first error').log_warning('a warning').log_error('second error')
+    r2 = dataclasses.replace(r, parameter_estimates=r.parameter_estimates * 1.25, standard_errors=r.standard_errors * 2,
+                             relative_standard_errors=r.relative_standard_errors * 1.6, log=log,
+                             parameter_estimates_iterations=None, ofv_iterations=None, ofv=601.25)
+    r3 = dataclasses.replace(r, parameter_estimates=r.parameter_estimates * 0.5, log=Log().log_warning('only a warning'),
+                             parameter_estimates_iterations=None, ofv_iterations=None, ofv=577.5)
+    entries = [('pheno', r), ('second', r2), ('third', r3)]
+    mes = [ModelEntry.create(pm.set_name(m, n), modelfit_results=res) for n, res in entries]
+    df = summarize_modelfit_results_from_entries(mes)
+    if [str(i) for i in df.index] != [n for n, _ in entries]:
+        bad.append(f'summary index {list(df.index)}')
+    else:
+        for n, res in entries:
+            for p in res.parameter_estimates.index:
+                for col, ser in ((f'{p}_estimate', res.parameter_estimates), (f'{p}_SE', res.standard_errors),
+                                 (f'{p}_RSE', res.relative_standard_errors)):
+                    if col in df.columns and not close(df.loc[n, col], ser[p], 1e-12):
+                        bad.append(f'summary {col}[{n}] = {df.loc[n, col]}, results have {ser[p]}')
+            ne = sum(1 for e in res.log if e.category == 'ERROR')
+            nw = sum(1 for e in res.log if e.category == 'WARNING')
+            if int(df.loc[n, 'errors_found']) != ne or int(df.loc[n, 'warnings_found']) != nw:
+                bad.append(f'summary error / warning counts of {n}')
+            if not close(df.loc[n, 'ofv'], res.ofv, 1e-12):
+                bad.append(f'summary ofv of {n} = {df.loc[n, "ofv"]}, results have {res.ofv}')
+            if bool(df.loc[n, 'minimization_successful']) != bool(res.minimization_successful):
+                bad.append(f'summary minimization_successful of {n}')
+    err = summarize_errors_from_entries(mes)
+    want = [(n, e.category, i, e.message) for n, res in entries for i, e in enumerate(res.log)]
+    got = [(idx[0], idx[1], int(idx[2]), row['message']) for idx, row in err.iterrows()]
+    if sorted(got) != sorted(want):
+        bad.append(f'error summary {got} != {want}')
+    return bad
+
+
 if __name__ == '__main__':
-    for f in (bootstrap, cdd, shrinkage, delta_method):
+    for f in (bootstrap, cdd, shrinkage, delta_method, summaries):
         try:
             print(f.__name__, f())
         except Exception as e:  # noqa
